@@ -26,7 +26,8 @@ RULE = ("cases = (condition tree, gene world, hit assignment, focus gene); trees
         "non-trivial = some neighbour carries a hit; all cases distinct by construction")
 ASSUMPTIONS = [
     "profile names are interchangeable (3 names suffice for <= 3 leaves); scores only matter relative to the minscore threshold",
-    "minimum/minscore nested inside cds(...) are outside the documented grammar and not generated",
+    "minimum nested inside cds(...) is refused by the parser and not generated; minscore inside cds(...) is accepted and judged as the "
+    "statement defines both: one single gene satisfies the inner formula on its own",
     "apply_cluster_rules may add ancillary genes to a rule's anchoring set; they must carry a rule profile and lie within the cutoff of a true anchor",
 ]
 BOUNDS = {
@@ -119,6 +120,8 @@ def run_shard(shard):
     mode, n_nb, leaves, chunk = shard[:4]
     res = Result()
     trees = U.trees(leaves)
+    if leaves >= 2:
+        trees = trees + U.cds_groups_with_score()      # (only here: the grammar reference of C02 does not describe them)
     cutoffs = (C1,) if mode == "detect" else (C1, C2)
     all_worlds = list(W.worlds(n_nb, cutoffs))
     tier_quick = len(shard) > 4 and shard[4] == "quick"
